@@ -248,6 +248,19 @@ func checkC18(c *CaseC18, fl *Fails) {
 }
 
 func sweepC18(tier string, emit func(*CaseC18)) {
+	// creeping tracks: consecutive points a millimetre (1e-8 deg / 1 mm of altitude) or less apart, and repeated
+	// positions with altitudes differing by less than a millimetre - different points that are "almost the same"
+	for _, step := range []float64{9e-9, 1.3e-8, 2.5e-8, 1e-9} {
+		for _, crs := range []int{3857, 900913, 32654} {
+			var track, hover []Pt
+			for i := 0; i < 60; i++ {
+				track = append(track, Pt{F64(139.767125 + step*float64(i)), F64(35.681236 + step*float64(i)/2), F64(10 + 0.001*float64(i%3))})
+				hover = append(hover, Pt{F64(139.767125), F64(35.681236), F64(10 + 0.0007*float64(i))})
+			}
+			emit(&CaseC18{Pts: track, CRS: crs})
+			emit(&CaseC18{Pts: hover, CRS: crs})
+		}
+	}
 	pts := []Pt{{F64(139.767125), F64(35.681236), F64(100)}, {F64(-180), F64(-latLimit), F64(-altLimit)}, {F64(180), F64(latLimit), F64(altLimit)}, {F64(0), F64(0), F64(0)},
 		{F64(13.4), F64(52.5), F64(1e6)}, {F64(-86.5), F64(32.5), F64(-1e4)}, {F64(2.35), F64(48.85), F64(35.5)}, {F64(-1.5), F64(53), F64(12345.678)}}
 	for _, crs := range knownCRS {
